@@ -485,10 +485,10 @@ pub fn annotate(g: &mut Grammar, t: &mut Tape) {
     let user_types = ["MyType", "crate::types::Num", "my_mod::Wrapper", "u32Wrapper"];
     // declarations
     if t.next(3) == 0 {
-        g.title = Some(["A title", "T", "x y z"][t.next(3)].to_string());
+        g.title = Some(["A title", "T", "x y z", "a\\b", "say \\\"hi\\\"", "tab\there", "\u{e9}\u{4e2d}", "\\d+ x"][t.next(8)].to_string());
     }
     if t.next(3) == 0 {
-        g.comment = Some(["A comment", "c"][t.next(2)].to_string());
+        g.comment = Some(["A comment", "c", "C:\\dir\\file", "line1\nline2", "q \\\" q"][t.next(5)].to_string());
     }
     if t.next(3) == 0 {
         g.user_types.push(("Alias".into(), user_types[t.next(user_types.len())].to_string()));
@@ -566,7 +566,7 @@ pub fn annotate(g: &mut Grammar, t: &mut Tape) {
                         }
                         if t.next(8) == 0 {
                             let q = [Quote::Raw, Quote::Str, Quote::Rx][t.next(3)];
-                            term.lookahead = Some((t.next(2) == 0, Lit { text: ["x", "ab", "q"][t.next(3)].to_string(), quote: q }));
+                            term.lookahead = Some((t.next(2) == 0, Lit { text: ["x", "ab", "q", ".", "a+", "(b)"][t.next(6)].to_string(), quote: q }));
                         }
                         if state_names.len() > 1 && t.next(4) == 0 {
                             let mut s: Vec<String> = state_names.iter().filter(|_| t.next(2) == 0).cloned().collect();
